@@ -18,7 +18,7 @@
 //!   (closeprobe <n>)  n runs of `REQUEST | varlink -A <service> bridge` (stdin closed right after the request)
 //!
 //! Observation:
-//!   (obs (bridged (out <reply>*) b<raw> <end>) (exit <code|sig<n>|timeout>)
+//!   (obs (bridged (out <reply>*) b<raw> <end>) (exit <code|sig<n>|timeout|closed-by-service>)
 //!        (direct (<k> (out <reply>*) b<raw> <open|closed>)*) (log <-| (bridged (<k> <req>*)*) (direct (<k> <req>*)*)>)
 //!        (upseen b<bridged> b<direct>))        (log / upseen: `-` unless the mode is resolver or bridge2)
 //!     a payload is written in the same write as the requests only by a pipelined client in the modes
@@ -27,10 +27,8 @@
 //!     bytes buffered behind an upgrading request, which is C02's business)
 //!     end = open (the bridge answered the sentinel call that the harness appends) | closed | timeout
 //!     `k` = index of the service, the resolver has index = number of services
-//!     closeearly in the modes connect / activate / bridgecmd: the pump forwards the pending input and then
-//!     shuts the service connection down in both directions, so how many replies still get through is a
-//!     race; the observation is `(bridged (prefix <t|f>) <end>)`: are the replies that came a prefix of the
-//!     direct ones?
+//!     closeearly in the modes connect / activate / bridgecmd: the pump forwards the pending input, half-closes
+//!     the service connection (aebf686) and forwards what the service still answers
 //!   (raceprobe lost|kept)          lost: in at least one session the reply did not arrive
 //!   (closeprobe cut|complete)      cut: in at least one run the reply did not arrive
 //!
@@ -757,7 +755,17 @@ fn run_proxy(ctx: &Ctx, l: &[Sx]) -> Sx {
             }
         }
     }
-    let exit = exit_sx(st);
+    let mut exit = exit_sx(st);
+    if direct_mode && res.end == "closed" && c.client != "closeearly" {
+        // the service closed the connection and the pump stopped by itself: whether its last read saw the
+        // end of the stream (status 0) or a reset because the service left input unread (status 1, an
+        // I/O error) is a race between the pump's read and the service's close()
+        if let Sx::Atom(a) = &exit {
+            if a == "0" || a == "1" {
+                exit = sx::atom("closed-by-service");
+            }
+        }
+    }
     if st.is_some() {
         // everything the bridge wrote before it exited
         let t0 = Instant::now();
@@ -856,7 +864,9 @@ fn run_proxy(ctx: &Ctx, l: &[Sx]) -> Sx {
     drop(resolver);
     let _ = std::fs::remove_dir_all(&sub.dir);
     let panicked = matches!(&exit, Sx::Atom(a) if a == "101");
-    let prefix_form = direct_mode && c.client == "closeearly";
+    // kept for replaying old observations: since aebf686 (half-close) the replies of a closeearly
+    // session behind a pump are complete and deterministic, the full list is printed
+    let prefix_form = false;
     let prefix_ok = {
         let got: Vec<String> = wire::split_replies(&bridged_out).iter().map(|r| r.render()).collect();
         let want: Vec<String> = direct_replies.iter().map(|r| r.render()).collect();
@@ -1221,6 +1231,13 @@ impl Suite for ProxySuite {
                     // (through the resolver-mode bridge the session goes on, so no EOF ends the wait)
                     let silent = tags.iter().any(|t| t == "hard:abort-silent");
                     if silent && (mtag == "resolver" || mtag == "bridge2") && client == "stepwise" {
+                        client = "pipelined";
+                    }
+                    // behind a pump, a service that closes after a delay while the stepwise client has
+                    // already written its next call resets the connection (exit status 1): keep most of
+                    // these sessions pipelined, where the whole session is in the service's buffer by then
+                    let delayed = tags.iter().any(|t| t == "hard:abort-delayed");
+                    if delayed && (mtag == "activate" || mtag == "bridgecmd" || mtag == "connect") && client == "stepwise" && rng.chance(3, 4) {
                         client = "pipelined";
                     }
                     frames.push(f);
